@@ -196,6 +196,18 @@ class SchedModel:
     def _discover_selection(self) -> None:
         self.sel_subset: Optional[Tuple[str, str]] = None
         asg = self._assignments_in_loop(self.xn)
+        self.reselect: Optional[ast.AST] = None
+        if len(asg) == 2 and all(isinstance(a_, ast.Assign) for a_ in asg):
+            # a second binding of the selected node under a test on the first one: the node that is dispatched is not the node the guards
+            # of the iteration were evaluated for (recorded; SCH-SEQ-PRE / SCH-PRIO report it)
+            asg.sort(key=lambda a_: getattr(a_, "lineno", 0))
+            from .ctx import enclosing_stmt_chain
+
+            under = [x for x in enclosing_stmt_chain(self.loop_stmt, asg[1]) if isinstance(x, ast.If)
+                     and any(isinstance(y, ast.Name) and y.id == self.xn for y in ast.walk(x.test))]
+            if under and not any(asg[0] is y for x in under for y in ast.walk(x)):
+                self.reselect = asg[1]
+                asg = asg[:1]
         if len(asg) != 1 or not isinstance(asg[0], ast.Assign):
             raise Undecided(f"selected node variable {self.xn}: expected one plain assignment in the loop, found {len(asg)}")
         self.xn_assign = asg[0]
@@ -1194,7 +1206,20 @@ def analyse_wait_helper(ctx: Ctx, h: FuncInfo) -> Optional[WaitHelper]:
     if tmo is None and kind == "conc" and len(wait_call.args) >= 2:
         tmo = wait_call.args[1]
     if tmo is not None and not (isinstance(tmo, ast.Constant) and tmo.value is None):
-        notes.append("TIMEOUT: " + norm_src(tmo)[:60])
+        passed = True
+        if isinstance(tmo, ast.Name) and tmo.id in params:
+            # a parameter that defaults to None and that no caller in the package ever supplies is no timeout
+            a_ = h.node.args
+            names_ = [x.arg for x in a_.posonlyargs + a_.args]
+            dflt = dict(zip(reversed(names_), reversed(a_.defaults)))
+            dflt.update({x.arg: d for x, d in zip(a_.kwonlyargs, a_.kw_defaults) if d is not None})
+            d0 = dflt.get(tmo.id)
+            if isinstance(d0, ast.Constant) and d0.value is None:
+                pos = names_.index(tmo.id) if tmo.id in names_ else None
+                passed = any((pos is not None and len(c.args) > pos) or any(k.arg == tmo.id or k.arg is None for k in c.keywords)
+                             for _, c in ctx.callers_of(h.qualname))
+        if passed:
+            notes.append("TIMEOUT: " + norm_src(tmo)[:60])
     # the helper waits ONCE and hands back what that wait found: a second wait (a loop around it, a second call of the primitive, a
     # call of the helper itself or of its sibling) keeps the scheduler blocked after a completion it asked to be woken up for
     n_waits = 0
